@@ -646,6 +646,7 @@ package bt
 // type (unlock_of, uninterpreted). Not checked of unlocker.Simple (external signing code); what Simple returns is specified
 // in package unlocker. An UnlockerGetter likewise (getter_of).
 //@ smt (declare-fun unlock_of (Ref Ref Int Int) Ref)
+//@ smt (declare-fun digest_of (Ref Int Int) B)
 //@ smt (declare-fun getter_of (Ref Ref) Ref)
 //@ iface bt.Unlocker.UnlockingScript
 //@   assigns
@@ -673,3 +674,8 @@ package bt
 //@   loop 0 invariant (forall ((j Int) (k Int)) (=> (and (<= 0 j) (< j k) (< k (len (. tx Inputs)))) (distinct (at (. tx Inputs) j) (at (. tx Inputs) k))))
 //@   loop 0 invariant (forall ((k Int)) (=> (and (<= 0 k) (< k (len (. tx Inputs)))) (and (= (at (. tx Inputs) k) (old (at (. tx Inputs) k))) (= (. (at (. tx Inputs) k) PreviousTxScript) (old (. (at (. tx Inputs) k) PreviousTxScript))))))
 //@   loop 0 invariant (and (= (. tx Inputs) (old (. tx Inputs))) (spec.inputs_nonnil tx) (forall ((k Int)) (=> (and (<= 0 k) (<= k rangeindex)) (= (. (at (. tx Inputs) k) UnlockingScript) (unlock_of (getter_of ug (. (at (. tx Inputs) k) PreviousTxScript)) tx k 65)))))
+// the signature hash as a name: digest_of(tx, input, hash type) is whatever CalcInputSignatureHash returns for the
+// transaction object in its current state (definition clause: deterministic in its arguments while the transaction is not
+// modified; for FORKID types C02 proves it equal to SHA256d of the BIP143 preimage)
+//@ func bt.(*Tx).CalcInputSignatureHash
+//@   define (=> (= err nil) (= (bytes r0) (digest_of tx inputNumber sigHashFlag)))
